@@ -46,6 +46,7 @@ type ProcSpec struct {
 	WriteIdiom bool             `json:"writeidiom,omitempty"`
 	JoinSep    string           `json:"joinsep,omitempty"` // kind "joiner": {i:x|join:SEP}
 	JoinMod    string           `json:"joinmod,omitempty"` // kind "joiner": extra modifier (basename, %.txt)
+	JoinHdr    bool             `json:"joinhdr,omitempty"` // kind "joiner": a further, ordinary in-port hdr
 	JoinSep2   string           `json:"joinsep2,omitempty"` // kind "joiner": separator of a second joined in-port y
 	CmdSuffix  string           `json:"cmdsuffix,omitempty"`
 	ParamsNotInCmd bool         `json:"params_not_in_cmd,omitempty"` // parameter ports are created with InParam(), used in SetOut only
@@ -70,6 +71,7 @@ type WSpec struct {
 	RunToHow string     `json:"runtohow,omitempty"` // "name" | "regex" | "procs"
 	Direct   string     `json:"direct,omitempty"`   // narrow-seam driver instead of a workflow (direct.go)
 	MkDirs   []string   `json:"mkdirs,omitempty"` // directories created before the run
+	PartialUnits  []string          `json:"partial_units,omitempty"`  // C02 histories: also pre-create only these out-ports of a multi-output task
 	SourceContent map[string]string `json:"source_content,omitempty"` // source files whose content is not their own path
 	Sources  []string   `json:"-"`                  // files created before the run (content = path)
 }
@@ -284,6 +286,9 @@ func (w *WSpec) build(env *Env) *built {
 			pat := "vjoin {o:out} [" + ph + "}]"
 			if ps.JoinSep2 != "" {
 				pat += " [{i:y|join:" + ps.JoinSep2 + "}]"
+			}
+			if ps.JoinHdr {
+				pat += " [{i:hdr}]"
 			}
 			p := wf.NewProc(ps.Name, pat)
 			p.SetOut("out", "joined.txt")
@@ -563,6 +568,10 @@ func (w *WSpec) referencePre(pre map[string]string) *Ref {
 				members2 := []string{}
 				for _, e := range w.Edges {
 					if e.To == p.Name {
+						if e.ToPort == "hdr" { // ordinary in-port fed directly
+							members2 = append(members2, r.Emit[e.From+"."+e.FromPort]...)
+							continue
+						}
 						// the sub-stream carrier comes from a "substream" process: its members are that process' input
 						for _, e2 := range w.Edges {
 							if e2.To == e.From {
@@ -643,6 +652,19 @@ func (w *WSpec) referencePre(pre map[string]string) *Ref {
 						}
 						producer[path] = t.Key
 						r.Emit[p.Name+"."+o.Name] = append(r.Emit[p.Name+"."+o.Name], path)
+					}
+					skip := false
+					for _, path := range t.Outs {
+						if _, ok := pre[path]; ok {
+							skip = true
+						}
+					}
+					if skip {
+						for _, path := range t.Outs {
+							if _, ok := pre[path]; !ok {
+								delete(r.Files, path) // the task is not executed: this output never comes into being
+							}
+						}
 					}
 					r.Tasks = append(r.Tasks, t)
 					r.ByKey[t.Key] = t
